@@ -106,8 +106,8 @@ PROPS = {
         "level": "exploration",
         "rule": "one program and one history (events, out-of-order responses, many requests outstanding) on a typed Core twin and four bridges (bincode/JSON x attribute/derive effect macro) in lock-step; decoded effect requests and view must equal the twin's, ids of outstanding requests distinct, a response under id i resumes the request issued under i (unique values); non-trivial = at least 3 calls, 2 effects and 1 event; distinct = hash of (program, history)",
         "lanes": [cmdlab("C09")],
-        "floors": {"quick": {"evaluations": 1200, "distinct_nontrivial": 300, "host_runs": 6000},
-                   "thorough": {"evaluations": 80000, "distinct_nontrivial": 15000}},
+        "floors": {"quick": {"evaluations": 1200, "distinct_nontrivial": 300, "host_runs": 6000, "wide_cases": 4, "events_over_1MiB_sent_over_a_bridge": 4},
+                   "thorough": {"evaluations": 80000, "distinct_nontrivial": 15000, "wide_cases": 100}},
         "must_cover": {"hosts": ["BridgeBincode", "BridgeJson"]},
         "assumptions": CMD_ASSUME,
     },
